@@ -126,17 +126,25 @@ Definition pstep (s : pst) (e : event) : option pst :=
       end
     else None
   | KInstall svc true =>
-    let s1 := upd_inst s (sset (p_inst s) (name_of s svc) svc) in
-    match e_by e with
-    | ACmd c => match nget (p_repl s) c with
-                | Some rep => Some (upd_drain s1 (nset (p_drain s) c (DDeploy rep)))
-                | None => Some s1
-                end
-    | _ => Some s1
+    match nget (p_name s) svc with
+    | Some n =>
+      let s1 := upd_inst s (sset (p_inst s) n svc) in
+      match e_by e with
+      | ACmd c => match nget (p_repl s) c with
+                  | Some rep => Some (upd_drain s1 (nset (p_drain s) c (DDeploy rep)))
+                  | None => Some s1
+                  end
+      | _ => Some s1
+      end
+    | None => None
     end
   | KRemoved svc =>
-    match installed s (name_of s svc) with
-    | Some x => if Nat.eqb x svc then Some (upd_inst s (sdel (p_inst s) (name_of s svc))) else None
+    match nget (p_name s) svc with
+    | Some n =>
+      match installed s n with
+      | Some x => if Nat.eqb x svc then Some (upd_inst s (sdel (p_inst s) n)) else None
+      | None => None
+      end
     | None => None
     end
   | KGateSet _ st _ =>
@@ -158,8 +166,12 @@ Definition pstep (s : pst) (e : event) : option pst :=
     match nget (p_req s) r with
     | Some _ => None
     | None =>
-      match installed s (name_of s svc) with
-      | Some x => if Nat.eqb x svc then Some (upd_req s (nset (p_req s) r (mkPr svc None None))) else None
+      match nget (p_name s) svc with
+      | Some n =>
+        match installed s n with
+        | Some x => if Nat.eqb x svc then Some (upd_req s (nset (p_req s) r (mkPr svc None None))) else None
+        | None => None
+        end
       | None => None
       end
     end
